@@ -13,7 +13,8 @@ import zlib
 
 from .pdfwriter import Name, Ref, Revision, Stream, build
 
-SEG = {"res": "res", "cmap": "cmap",     # the basenames of the two resource directories (CMAP_PATH dir, <package>/cmap)
+SEG = {"lnk": "lnk",                      # a symbolic link inside the resource directory (res/lnk -> dec/pack)
+       "res": "res", "cmap": "cmap",     # the basenames of the two resource directories (CMAP_PATH dir, <package>/cmap)
        "H": "H", "dec": "dec", "evil": "evil", "sub": "sub", "zz": "zz", "dd": "..", "d": ".", "e": "",
        "nul": "ev\0il", "long": "x" * 300,
        "ndd": ".\0.",          # a dot-dot split by a NUL: ".." once the NULs are removed
@@ -21,9 +22,12 @@ SEG = {"res": "res", "cmap": "cmap",     # the basenames of the two resource dir
 
 # scratch tree shared by all CMap cases (relative to the scratch root)
 SIB = {"cmap": "res_evil", "image": "out_evil"}
-TREE_DIRS = ["res", "res/sub", "out", "out/sub", "dec", "res_evil", "out_evil", "cmap"]
+TREE_DIRS = ["res", "res/sub", "out", "out/sub", "dec", "dec/pack", "res_evil", "out_evil", "cmap"]
+# symbolic links (link, target), both relative to the scratch root: a linked sub-directory inside the resource
+# directory, and a link to the resource directory itself (CMAP_PATH may name it)
+TREE_LINKS = [["res/lnk", "dec/pack"], ["reslnk", "res"]]
 TREE_PICKLES = ["res/evil.pickle.gz", "res/sub/evil.pickle.gz", "dec/evil.pickle.gz", "dec/H.pickle.gz",
-                "res_evil/evil.pickle.gz", "out_evil/evil.pickle.gz", "cmap/evil.pickle.gz",
+                "res_evil/evil.pickle.gz", "out_evil/evil.pickle.gz", "cmap/evil.pickle.gz", "dec/pack/evil.pickle.gz",
                 "res/to-unicode-Adobe-evil.pickle.gz"]
 
 
@@ -154,7 +158,7 @@ def image_doc(text, draws, pages=1, ext="bmp", src="xobj"):
     attrs = {"Type": Name("XObject"), "Subtype": Name("Image")}
     attrs.update(entries)
     img = Stream(attrs, zlib.compress(pix) if entries.get("Filter") == "FlateDecode" else pix)
-    if src == "inline":
+    if src.startswith("inline"):
         d = b" ".join(ser_name(INLINE_KEYS[k]) + b" " + ser(v) for k, v in entries.items() if not (k == "Filter" and v == "FlateDecode"))
         do = b"q 100 0 0 100 50 50 cm BI " + d + b" ID " + pix[:1] + b" EI Q "
     else:
@@ -162,10 +166,19 @@ def image_doc(text, draws, pages=1, ext="bmp", src="xobj"):
     objs = {1: {"Type": Name("Catalog"), "Pages": Ref(2)}, 5: img}
     kids = []
     n = 10
+    xobjs = {text: Ref(5)}
+    per_page = draws
+    if src == "inlinepages":
+        pages, per_page = draws, 1                     # one inline image on each page: every one is "inline0"
+    elif src == "inlineform":
+        per_page = 1                                   # one on the page, the next ones in a form XObject the page invokes
+        if draws > 1:
+            objs[6] = Stream({"Type": Name("XObject"), "Subtype": Name("Form"), "BBox": [0, 0, 612, 792]}, do * (draws - 1))
+            xobjs = {"VerifForm": Ref(6)}
     for _ in range(pages):
-        objs[n] = Stream({}, do * draws)
+        objs[n] = Stream({}, do * per_page + (b" /VerifForm Do " if src == "inlineform" and draws > 1 else b""))
         objs[n + 1] = {"Type": Name("Page"), "Parent": Ref(2), "MediaBox": [0, 0, 612, 792],
-                       "Resources": {"XObject": {text: Ref(5)}}, "Contents": Ref(n)}
+                       "Resources": {"XObject": xobjs}, "Contents": Ref(n)}
         kids.append(Ref(n + 1))
         n += 2
     objs[2] = {"Type": Name("Pages"), "Kids": kids, "Count": len(kids)}
